@@ -46,6 +46,17 @@ Section Refine.
   (* s' differs from s in the ledger only at the elements of es, and creates no element *)
   Definition only_changes (s s' : state) (es : list elem) : Prop :=
     next_elem s' = next_elem s /\ forall e, ~ In e es -> ledger s' e = ledger s e.
+  (* payloads and the panic scripts are the same *)
+  Definition quiet (s s' : state) : Prop :=
+    payload s' = payload s /\ clone_panics s' = clone_panics s /\ drop_panics s' = drop_panics s.
+  Lemma quiet_refl s : quiet s s. Proof. repeat split. Qed.
+  Lemma quiet_trans s1 s2 s3 : quiet s1 s2 -> quiet s2 s3 -> quiet s1 s3.
+  Proof. intros (A & B & C) (D & E & F). repeat split; congruence. Qed.
+  Lemma quiet_frame s s' b : frame_block s s' b -> quiet s s'.
+  Proof. intros H. split; [exact (fb_payload _ _ _ H)|split; [exact (fb_cp _ _ _ H)|exact (fb_dp _ _ _ H)]]. Qed.
+  Lemma quiet_same s s' : same_elems s s' -> quiet s s'.
+  Proof. intros H. split; [exact (se_payload _ _ H)|split; [exact (se_cp _ _ H)|exact (se_dp _ _ H)]]. Qed.
+
   Lemma only_changes_refl s es : only_changes s s es.
   Proof. split; reflexivity. Qed.
   Lemma oc_frame s s' b : frame_block s s' b -> only_changes s s' [].
@@ -181,23 +192,26 @@ Section Refine.
 
   (* ------------------------------------------------------------------ capacity operations leave the list alone *)
   Lemma capop_abs s v l o : vabs s v l -> cap_arg_ok o ->
-    post (run_capop cfg ncap v o s) (fun _ s' => vabs s' v l /\ only_changes s s' []) (fun s' => s' = s).
+    post (run_capop cfg ncap v o s) (fun _ s' => vabs s' v l /\ only_changes s s' [] /\ quiet s s') (fun s' => s' = s).
   Proof.
     intros Hab Ha.
     eapply post_weaken.
     - apply (run_capop_okP cfg ncap Hcfg Hpol
-               (fun s' bl => owned s' bl /\ velems bl = l /\ ledger s' = ledger s /\ next_elem s' = next_elem s))
-        with (F := fun s0 => l = [] /\ ledger s0 = ledger s /\ next_elem s0 = next_elem s) (s := s) (v := v) (o := o).
-      + intros s0 s' bl c size (Ho & Hl & H1 & H2) Hse. split; [|split; [exact Hl|]].
+               (fun s' bl => owned s' bl /\ velems bl = l /\ ledger s' = ledger s /\ next_elem s' = next_elem s /\ quiet s s'))
+        with (F := fun s0 => l = [] /\ ledger s0 = ledger s /\ next_elem s0 = next_elem s /\ quiet s s0) (s := s) (v := v) (o := o).
+      + intros s0 s' bl c size (Ho & Hl & H1 & H2 & Hq) Hse. split; [|split; [exact Hl|]].
         * apply (owned_grown s0 s' bl c size Ho); [exact (se_ledger _ _ Hse)|exact (se_next _ _ Hse)].
-        * rewrite (se_ledger _ _ Hse), (se_next _ _ Hse). auto.
-      + intros s0 s' (-> & H1 & H2) Hse size a c. split; [apply owned_fresh_block|]. split; [reflexivity|].
-        rewrite (se_ledger _ _ Hse), (se_next _ _ Hse). auto.
-      + destruct Hab as [[Hs Hl]|(b & bl & H1 & H2 & H3 & H4)]; [left; auto|right; eauto 10].
+        * rewrite (se_ledger _ _ Hse), (se_next _ _ Hse). split; [exact H1|]. split; [exact H2|].
+          exact (quiet_trans _ _ _ Hq (quiet_same _ _ Hse)).
+      + intros s0 s' (-> & H1 & H2 & Hq) Hse size a c. split; [apply owned_fresh_block|]. split; [reflexivity|].
+        rewrite (se_ledger _ _ Hse), (se_next _ _ Hse). split; [exact H1|]. split; [exact H2|].
+        exact (quiet_trans _ _ _ Hq (quiet_same _ _ Hse)).
+      + destruct Hab as [[Hs Hl]|(b & bl & H1 & H2 & H3 & H4)]; [left; split; [exact Hs|]; split; [exact Hl|]; split; [reflexivity|]; split; [reflexivity|apply quiet_refl]|].
+        right. exists b, bl. split; [exact H1|]. split; [exact H2|]. split; [exact H3|]. split; [exact H4|]. split; [reflexivity|]. split; [reflexivity|apply quiet_refl].
       + exact Ha.
-    - intros u s' [[H1 (H2 & H3 & H4)]|(b & bl & H1 & H2 & H3 & H4 & H5 & H6)].
-      + split; [left; auto|]. split; [exact H4|]. intros e _. rewrite H3. reflexivity.
-      + split; [right; eauto 8|]. split; [exact H6|]. intros e _. rewrite H5. reflexivity.
+    - intros u s' [[H1 (H2 & H3 & H4 & Hq)]|(b & bl & H1 & H2 & H3 & H4 & H5 & H6 & Hq)].
+      + split; [left; auto|]. split; [|exact Hq]. split; [exact H4|]. intros e _. rewrite H3. reflexivity.
+      + split; [right; eauto 8|]. split; [|exact Hq]. split; [exact H6|]. intros e _. rewrite H5. reflexivity.
     - intros s' H. exact H.
   Qed.
 
@@ -231,7 +245,7 @@ Section Refine.
 
   Lemma push_abs s v l e :
     vabs s v l -> ledger s e = Live -> ~ In e l -> e < next_elem s ->
-    post (push cfg ncap v e s) (fun _ s' => vabs s' v (l ++ [e]) /\ only_changes s s' [])
+    post (push cfg ncap v e s) (fun _ s' => vabs s' v (l ++ [e]) /\ only_changes s s' [] /\ quiet s s')
                                (fun s' => vabs s' v l /\ ledger s' e = Dropped /\ only_changes s s' [e]).
   Proof.
     intros Hab Hle Hnh Hold. rewrite push_unfold.
@@ -256,7 +270,8 @@ Section Refine.
       pose proof (allocated_vec_at _ _ _ _ Hal) as Hvn.
       destruct (push_tail_spec cfg Hcfg s' v _ nbl e Hvn Hbn ltac:(simpl; lia)) as (s'' & Hpt & Hv'' & Hfr & Hb'' & Hvel & Hinit).
       rewrite Hpt. simpl. split.
-      2:{ change (@nil elem) with (@nil elem ++ @nil elem). eapply oc_trans; [apply oc_same; exact (al_same _ _ _ _ Hal)|eapply oc_frame; exact Hfr]. }
+      2:{ split; [change (@nil elem) with (@nil elem ++ @nil elem); eapply oc_trans; [apply oc_same; exact (al_same _ _ _ _ Hal)|eapply oc_frame; exact Hfr]|].
+          exact (quiet_trans _ _ _ (quiet_same _ _ (al_same _ _ _ _ Hal)) (quiet_frame _ _ _ Hfr)). }
       right. eexists _, _. split; [exact Hv''|]. split; [exact Hb''|].
       assert (Hown : owned s' nbl) by apply owned_fresh_block.
       split; [|rewrite Hvel; reflexivity].
@@ -288,7 +303,8 @@ Section Refine.
         pose proof (moved_vec_at _ _ _ _ _ Hmv) as Hvn.
         destruct (push_tail_spec cfg Hcfg s' v _ nbl e Hvn Hbn ltac:(simpl; lia)) as (s'' & Hpt & Hv'' & Hfr & Hb'' & Hvel & Hinit).
         rewrite Hpt. simpl. split.
-        2:{ change (@nil elem) with (@nil elem ++ @nil elem). eapply oc_trans; [apply oc_same; exact (mv_same _ _ _ _ _ Hmv)|eapply oc_frame; exact Hfr]. }
+        2:{ split; [change (@nil elem) with (@nil elem ++ @nil elem); eapply oc_trans; [apply oc_same; exact (mv_same _ _ _ _ _ Hmv)|eapply oc_frame; exact Hfr]|].
+            exact (quiet_trans _ _ _ (quiet_same _ _ (mv_same _ _ _ _ _ Hmv)) (quiet_frame _ _ _ Hfr)). }
         right. eexists _, _. split; [exact Hv''|]. split; [exact Hb''|].
         assert (Hown : owned s' nbl).
         { apply (owned_grown s s' bl c1 size Ho); [exact (se_ledger _ _ (mv_same _ _ _ _ _ Hmv))|exact (se_next _ _ (mv_same _ _ _ _ _ Hmv))]. }
@@ -303,7 +319,7 @@ Section Refine.
         * apply Hinit. exact (ow_init _ _ Hown).
       + rewrite bind_ret.
         destruct (push_tail_spec cfg Hcfg s v b bl e Hv Hb ltac:(lia)) as (s'' & Hpt & Hv'' & Hfr & Hb'' & Hvel & Hinit).
-        rewrite Hpt. simpl. split; [|eapply oc_frame; exact Hfr].
+        rewrite Hpt. simpl. split; [|split; [eapply oc_frame; exact Hfr|exact (quiet_frame _ _ _ Hfr)]].
         right. eexists _, _. split; [exact Hv''|]. split; [exact Hb''|].
         split; [|rewrite Hvel, <- Hl; reflexivity].
         eapply owned_after_push with (s := s); try exact Ho; auto.
@@ -753,7 +769,7 @@ Section Refine.
         * simpl. unfold upd. rewrite Z.eqb_refl. reflexivity.
         * exact Hnew.
         * simpl. lia.
-      + intros u s' [H Hoc]. exists (l ++ [next_elem s]). split; [exists (next_elem s); auto|]. split; [exact H|].
+      + intros u s' (H & Hoc & _). exists (l ++ [next_elem s]). split; [exists (next_elem s); auto|]. split; [exact H|].
         eapply acc_step; [exact Hacc'|exact Hoc|intros e []|intros e He; left; exact He].
       + intros s' (H & Hd & Hoc). exists l. split; [reflexivity|]. split; [exact H|].
         eapply acc_step; [exact Hacc'|exact Hoc| |].
@@ -819,7 +835,7 @@ Section Refine.
         intros e He. rewrite <- (firstn_skipn (Z.to_nat n) l) in He. apply in_app_or in He. exact He.
     - (* capacity operations *)
       eapply post_weaken; [apply capop_abs; eassumption| |].
-      + intros u s' [H Hoc]. exists l. split; [reflexivity|]. split; [exact H|].
+      + intros u s' (H & Hoc & _). exists l. split; [reflexivity|]. split; [exact H|].
         eapply acc_step; [exact Hacc|exact Hoc|intros e []|intros e He; left; exact He].
       + intros s' ->. exists l. split; [reflexivity|]. split; assumption.
   Qed.
